@@ -1661,7 +1661,7 @@ class Interp:
                 for wk in bad:
                     if wk not in flipped:
                         flipped.add(wk)
-                        if wk[0] in ('pstride', 'objcell'):
+                        if wk[0] in ('pstride', 'objcell', 'istride'):
                             signs[wk] = True
                         else:
                             cur = [n for n in newsyms if self.what_key(n[2]) == wk][0][4]
@@ -1762,7 +1762,7 @@ class Interp:
 
     @staticmethod
     def what_key(what):
-        return (what[0], what[1].id) if what[0] in ('phi', 'pphi') else (what[0], what[1])
+        return (what[0], what[1].id) if what[0] in ('phi', 'pphi', 'sphi') else (what[0], what[1])
 
     def build_head(self, st, fn, L, phis, inits, modified, smashed, signs=None):
         signs = signs or {}
@@ -1779,6 +1779,31 @@ class Interp:
                 if signed is None:
                     signed = self.phi_signed(fn, L, ph, iv, st)
                 init = st.as_s(iv) if signed else st.as_u(iv)
+                # an unsigned counter advanced by one constant c >= 2 on every back edge (`off += 24`): value = entry value +
+                # c * k with k a fresh non-negative integer, so that `off < n * 24` gives `off + 24 <= n * 24` (the integer
+                # counterpart of the strided pointer cursor below).  Given up (plain symbol) when a back-edge value is not of
+                # that form, e.g. because the addition may wrap.
+                stride = None
+                if not signed and init is not None and iv.w >= 32 and not signs.get(('istride', ph.id)):
+                    steps = set()
+                    for (bb, v) in ph.incoming:
+                        if fn.bmap[bb] in L['blocks']:
+                            g = fn.insts[v.id] if v.k == 'inst' else None
+                            if g is not None and g.op == 'add' and g.ops[0].k == 'inst' and g.ops[0].id == ph.id and \
+                                    g.ops[1].k == 'ci' and g.ops[1].ival >= 2:
+                                steps.add(g.ops[1].ival)
+                            else:
+                                steps.add(None)
+                    if len(steps) == 1 and None not in steps:
+                        stride = steps.pop()
+                if stride is not None:
+                    k_ = H.fresh_int(64, True, 'sidx_' + hint)
+                    H.cons.add_le(0, k_.s)
+                    val = init + k_.s * stride
+                    H.cons.add_le(val, (1 << iv.w) - 1)
+                    H.env[('i', ph.id)] = IntVal(iv.w, val, None)
+                    newsyms.append((k_.s, Lin(0), ('sphi', ph, stride, init), 64, True))
+                    continue
                 x = H.fresh_int(iv.w, signed, 'phi_' + hint)
                 H.env[('i', ph.id)] = x
                 newsyms.append(((x.s if signed else x.u), init, ('phi', ph), iv.w, signed))
@@ -1844,7 +1869,7 @@ class Interp:
                 elif k[0] == oid:
                     H.mem.pop(k, None)
         # symbols of cells that were dropped by smashing have no latch value
-        newsyms = [n for n in newsyms if n[2][0] in ('phi', 'pphi') or n[2][1] in H.mem]
+        newsyms = [n for n in newsyms if n[2][0] in ('phi', 'pphi', 'sphi') or n[2][1] in H.mem]
         return H, newsyms
 
     def cell_signed(self, st, k, old):
@@ -1899,13 +1924,25 @@ class Interp:
         for (xl, init, what, w, signed) in newsyms:
             sym = next(iter(xl.t))
             l = None
-            if what[0] in ('phi', 'pphi'):
+            if what[0] in ('phi', 'pphi', 'sphi'):
                 ph = what[1]
                 nv = None
                 for (bb, v) in ph.incoming:
                     if bb == lf.name:
                         nv = self.val(T, v, fn)
-                if what[0] == 'phi':
+                if what[0] == 'sphi':
+                    lu = T.as_u(nv) if isinstance(nv, IntVal) else None
+                    if lu is not None:
+                        d = lu - what[3]
+                        # wrap-around terms that the state excludes
+                        for sy in list(d.t):
+                            if T.cons.entails_eq(Lin.sym(sy), 0):
+                                d = d.subst({sy: Lin(0)})
+                        if d.divisible(what[2]):
+                            l = d.div_exact(what[2])
+                    if l is None:
+                        bad.append(('istride', ph.id))
+                elif what[0] == 'phi':
                     if isinstance(nv, IntVal):
                         l = T.as_s(nv) if signed else T.as_u(nv)
                         if l is None:
